@@ -307,12 +307,12 @@ def impl_coarsener(cooler_path, case, batchsize):
 
 
 def chunks_ok(chunks):
-    """no coarse row split or duplicated across work units: every chunk non-empty, strictly sorted,
-    and all bin1 ids of a chunk are larger than those of the previous chunk"""
+    """no coarse row split or duplicated across work units: every chunk strictly sorted, and all
+    bin1 ids of a chunk larger than those of the previous chunks (an empty chunk is harmless)"""
     prev = -1
     for ch in chunks:
         if not ch:
-            return False
+            continue
         keys = [(p[0], p[1]) for p in ch]
         if keys != sorted(set(keys)):
             return False
